@@ -215,6 +215,8 @@ def check(chk):
 
     _requests_sized_by_unclaimed(chk, repo)
     _resolve_incoming(chk, repo)
+    _ball_save_conservation(chk, repo)
+    _bounded_waits(chk, repo)
 
     # ------------------------------------------------------------- BOOL-1
     n_h = 0
@@ -366,6 +368,160 @@ def _resolve_incoming(chk, repo):
     chk.floor("RESOLVE-1", 12)
 
 
+def _bounded_waits(chk, repo):
+    """TIMEOUT-5: the wait for the ball to leave is unbounded only where a person fires the ball: the request is player controlled
+    *and* this device is operated by hand (mechanical eject or a player-controlled eject event).  Every other wait is bounded by the
+    request's eject timeout, so a coil-fired eject that does not leave is noticed, retried and eventually reported."""
+    oh = repo.cls(OB, OH)
+    f = oh.methods["_eject_ball"]
+    cfg = f.cfg()
+    sets = [n for n in cfg.nodes if n.kind == "stmt" and isinstance(n.ast, ast.Assign) and src(n.ast.targets[0]) == "timeout"]
+    chk.need(sets, "TIMEOUT-5", "_eject_ball chooses a timeout for the ball to leave", f)
+    waits = [(n, c) for n, c in cfg.calls_named("any", "first", "wait_for") if kwarg(c, "timeout") is not None and src(kwarg(c, "timeout")) == "timeout"]
+    chk.ob("TIMEOUT-5", "the wait for the ball to leave uses the chosen timeout", len(waits) == 1, f.where(), construct=f.ident, text="leave wait uses timeout")
+    PC = "eject_request.player_controlled"
+    HAND = ("self.ball_device.config['mechanical_eject']", "self.ball_device.config['player_controlled_eject_event']")
+    n_un = 0
+    for n in sets:
+        v = src(n.ast.value)
+        if v == "None":
+            n_un += 1
+            bad = None
+            for path, facts in feasible_paths(cfg, cfg.entry.id, [n.id]):
+                if not (facts.get(PC) is True and any(facts.get(h) is True for h in HAND)):
+                    bad = path
+                    break
+            chk.ob("TIMEOUT-5", "the ball may take for ever to leave only for a player-controlled request on a hand-operated device", bad is None, f.where(n.ast),
+                   path=cfg.fmt_path(bad, OB)[-8:] if bad else None, construct=f.ident, text="unbounded leave wait")
+        else:
+            chk.ob("TIMEOUT-5", "otherwise the wait is bounded by the request's eject timeout", v == "eject_request.eject_timeout", f.where(n.ast), detail=v,
+                   construct=f.ident, text="bounded leave wait " + v)
+    chk.ob("TIMEOUT-5", "timeout choices examined", len(sets) >= 2 and n_un == 1, f.where(), detail="%d choices, %d unbounded" % (len(sets), n_un), nontrivial=False)
+    hc = oh.methods["_handle_confirm"]
+    t = [a for a in walk_local(hc.node) if isinstance(a, ast.Assign) and src(a.targets[0]) == "timeout"]
+    w = [c for c in hc.calls() if call_attr(c) in ("first", "any") and kwarg(c, "timeout") is not None]
+    ok = len(t) == 1 and src(t[0].value) == "eject_request.eject_timeout" and len(w) == 1 and src(kwarg(w[0], "timeout")) == "timeout"
+    chk.ob("TIMEOUT-5", "the wait for the confirmation is bounded by the request's eject timeout", ok, hc.where(), construct=hc.ident, text="confirm wait bounded")
+    lc = oh.methods["_handle_late_confirm_or_missing"]
+    w = [c for c in lc.calls() if call_attr(c) in ("first", "any") and kwarg(c, "timeout") is not None]
+    t = [a for a in walk_local(lc.node) if isinstance(a, ast.Assign) and src(a.targets[0]) == "timeout"]
+    ok = len(w) == 1 and src(kwarg(w[0], "timeout")) == "timeout" and len(t) == 1 and \
+        src(t[0].value).replace(" ", "") == "self.ball_device.config['ball_missing_timeouts'][eject_request.target]/1000"
+    chk.ob("TIMEOUT-5", "the wait for a late confirmation is bounded by the ball-missing timeout of the eject's target (ms -> s)", ok, lc.where(), construct=lc.ident,
+           text="late confirm wait bounded")
+
+
+def _ball_save_conservation(chk, repo):
+    """SAVE-5: a saved ball is a ball taken out of the drain and requested again -- one for one.  What the drain handler keeps back
+    it schedules; what is scheduled goes to exactly one sink; the pending count accumulates until it is handed over; the hand-over
+    requests exactly that many balls (from locks first, the rest from the trough); a mode end flushes what is pending."""
+    BSV = "mpf/devices/ball_save.py"
+    bs = repo.cls(BSV, "BallSave")
+    f = bs.methods["_ball_drain_while_active"]
+    chk.analysed(f)
+    cfg = f.cfg()
+    sch = [(n, c) for n, c in cfg.calls_named("_schedule_balls")]
+    rets = [n for n in cfg.nodes if n.kind == "stmt" and isinstance(n.ast, ast.Return) and isinstance(n.ast.value, ast.Dict) and n.ast.value.keys]
+    ok = len(sch) == 1 and len(rets) == 1 and len(sch[0][1].args) == 1
+    if ok:
+        v = src(sch[0][1].args[0])
+        d = rets[0].ast.value
+        ok = [src(k) for k in d.keys] == ["'balls'"] and src(d.values[0]).replace(" ", "") == "balls-%s" % v and cfg.dominates(sch[0][0].id, rets[0].id)
+        asg = [a for a in walk_local(f.node) if isinstance(a, ast.Assign) and src(a.targets[0]) == v]
+        ok = ok and len(asg) == 1 and call_attr(asg[0].value) == "_get_number_of_balls_to_save" and [src(a) for a in asg[0].value.args] == ["balls"]
+    chk.ob("SAVE-5", "the balls a ball save keeps out of the drain are exactly the balls it schedules for re-delivery", ok, f.where(), construct=f.ident,
+           text="drain relay minus scheduled")
+    g = bs.methods["_schedule_balls"]
+    chk.analysed(g)
+    gcfg = g.cfg()
+    par = g.node.args.args[1].arg
+    sinks = []
+    for n in gcfg.nodes:
+        if n.kind != "stmt":
+            continue
+        if isinstance(n.ast, ast.AugAssign) and src(n.ast.target) == "self._scheduled_balls":
+            sinks.append((n, "acc", isinstance(n.ast.op, ast.Add) and src(n.ast.value) == par))
+        elif isinstance(n.ast, ast.Assign) and any(src(t) == "self._scheduled_balls" for t in n.ast.targets):
+            sinks.append((n, "acc", False))
+        for c in n.calls():
+            if call_attr(c) == "_add_balls":
+                sinks.append((n, "now", [src(a) for a in c.args] == [par]))
+            elif call_attr(c) in ("add", "reset") and "delay" in src(c.func.value):
+                kw = kwarg(c, "balls_to_save")
+                sinks.append((n, "delay", kw is not None and src(kw) == par and any(src(a) == "self._add_balls" for a in list(c.args) + [k.value for k in c.keywords])))
+    chk.ob("SAVE-5", "scheduled balls go to a delayed request, to the pending count (added to it), or are requested now", len(sinks) == 3 and all(o for _, _, o in sinks)
+           and {k for _, k, _ in sinks} == {"acc", "now", "delay"}, g.where(), detail=str([(k, o) for _, k, o in sinks]), construct=g.ident,
+           text="schedule sinks " + ",".join("%s:%s" % (k, o) for _, k, o in sinks))
+    exits = [n.id for n in gcfg.nodes if n.kind == "exit"]
+    w = gcfg.path_avoiding(gcfg.entry.id, exits, [n.id for n, _, _ in sinks])
+    chk.ob("SAVE-5", "every path of _schedule_balls puts the balls somewhere", w is None, g.where(), path=gcfg.fmt_path(w, BSV) if w else None, construct=g.ident,
+           text="schedule without sink")
+    # the pending count: only 0 or += ; handed over before it is reset
+    n_st = 0
+    for m in bs.methods.values():
+        for x in walk_local(m.node):
+            tgt = None
+            if isinstance(x, ast.Assign) and any(src(t) == "self._scheduled_balls" for t in x.targets):
+                tgt = ("=", src(x.value))
+            elif isinstance(x, ast.AugAssign) and src(x.target) == "self._scheduled_balls":
+                tgt = (type(x.op).__name__, src(x.value))
+            if tgt is None:
+                continue
+            n_st += 1
+            ok = tgt == ("=", "0") or tgt[0] == "Add"
+            chk.ob("SAVE-5", "the pending ball count is only reset to 0 or added to (%s)" % m.name, ok, m.where(x), detail=str(tgt), construct=m.ident,
+                   text="pending count store %s %s in %s" % (tgt[0], tgt[1], m.name))
+    chk.expect(n_st >= 3, "C05: ball save pending-count stores lost (%d)" % n_st)
+    de = bs.methods["delayed_eject"]
+    chk.analysed(de)
+    dcfg = de.cfg()
+    ho = [(n, c) for n, c in dcfg.calls_named("_add_balls") if [src(a) for a in c.args] == ["self._scheduled_balls"]]
+    rs = [n for n in dcfg.nodes if n.kind == "stmt" and isinstance(n.ast, ast.Assign) and src(n.ast.targets[0]) == "self._scheduled_balls" and src(n.ast.value) == "0"]
+    ok = len(ho) == 1 and len(rs) == 1 and dcfg.dominates(ho[0][0].id, rs[0].id)
+    chk.ob("SAVE-5", "the pending balls are requested before the pending count is reset", ok, de.where(), construct=de.ident, text="hand-over then reset")
+    ab = bs.methods["_add_balls"]
+    chk.analysed(ab)
+    acfg = ab.cfg()
+    p2 = ab.node.args.args[1].arg
+    reqs = [(n, c) for n, c in acfg.calls_named("add_ball")]
+    lock = [(n, c) for n, c in reqs if kwarg(c, "source_device") is not None]
+    rest = [(n, c) for n, c in reqs if kwarg(c, "source_device") is None]
+    ok = len(lock) == 1 and len(rest) == 1
+    if ok:
+        lb = kwarg(lock[0][1], "balls")
+        acc = [x for x in walk_local(ab.node) if isinstance(x, ast.AugAssign) and isinstance(x.op, ast.Add) and src(x.value) == src(lb)]
+        ok = len(acc) == 1 and isinstance(acc[0].target, ast.Name)
+        if ok:
+            a = acc[0].target.id
+            rb = kwarg(rest[0][1], "balls")
+            ok = src(rb).replace(" ", "") == "%s-%s" % (p2, a) and acfg.guards_at(rest[0][0].id).get("%s - %s > 0" % (p2, a)) is True
+            d = [x for x in walk_local(ab.node) if isinstance(x, ast.Assign) and src(x.targets[0]) == src(lb)]
+            ok = ok and len(d) == 1 and src(d[0].value).replace(" ", "") == "max(min(device.available_balls,%s-%s),0)" % (p2, a)
+    chk.ob("SAVE-5", "the hand-over requests exactly the scheduled number: from each lock what it has (at most what is still missing), the rest from the trough",
+           ok, ab.where(), construct=ab.ident, text="hand-over arithmetic")
+    rm = bs.methods["device_removed_from_mode"]
+    chk.analysed(rm)
+    rcfg = rm.cfg()
+    fl = [n for n, c in rcfg.calls_named("delayed_eject")]
+    ok = len(fl) == 1 and canon_guard_only(rcfg.guards_at(fl[0].id), "self.config['delayed_eject_events']")
+    chk.ob("SAVE-5", "a mode end flushes the pending saved balls (they would otherwise never be requested)", ok, rm.where(), construct=rm.ident,
+           text="mode end flush")
+    es = bs.methods["early_ball_save"]
+    eh = bs.methods["_early_ball_save_drain_handler"]
+    chk.analysed(es, eh)
+    up = [x for x in walk_local(es.node) if isinstance(x, ast.AugAssign) and src(x.target) == "self.early_saved" and isinstance(x.op, ast.Add) and src(x.value) == "1"]
+    sc = [c for c in es.calls() if call_attr(c) == "_schedule_balls" and [src(a) for a in c.args] == ["1"]]
+    dn = [x for x in walk_local(eh.node) if isinstance(x, ast.AugAssign) and isinstance(x.op, ast.Sub) and src(x.value) == "1"]
+    ok = len(up) == 1 and len(sc) == 1 and sorted(src(x.target) for x in dn) == ["balls", "self.early_saved"]
+    chk.ob("SAVE-5", "an early save requests one ball and later swallows exactly one drained ball", ok, es.where(), construct=es.ident, text="early save pairing")
+
+
+def canon_guard_only(g, text):
+    from sa.cfg import canon_set
+    items = sorted(canon_set(g))
+    return len(items) == 1 and items[0] == (text, True)
+
+
 def battery():
     from sa.battery import M
     return [
@@ -395,6 +551,15 @@ def battery():
         M("playfield confirm leaves the announced ball open", OB, "            incoming_ball_at_target.ball_arrived()\n            await self._handle_eject_success(eject_request)\n            return True", "            await self._handle_eject_success(eject_request)\n            return True", "RESOLVE-1"),
         M("confirmed eject without success event", OB, "        self.info_log(\"Got eject confirm\")\n        await self._handle_eject_success(eject_request)\n", "        self.info_log(\"Got eject confirm\")\n", "RESOLVE-1"),
         M("twin: late confirm log text", OB, "Got eject confirm (after recounting)", "Got eject confirm after recounting", None),
+        M("pending saved balls overwritten", "mpf/devices/ball_save.py", "            self._scheduled_balls += balls_to_save", "            self._scheduled_balls = balls_to_save", "SAVE-5"),
+        M("pending count reset before the hand-over", "mpf/devices/ball_save.py", "        self._add_balls(self._scheduled_balls)\n        self._scheduled_balls = 0", "        self._scheduled_balls = 0\n        self._add_balls(self._scheduled_balls)", "SAVE-5"),
+        M("drain keeps back more than it schedules", "mpf/devices/ball_save.py", "        self._schedule_balls(balls_to_save)\n\n        self._reduce_remaining_saves_and_disable_if_zero(balls_to_save)", "        self._schedule_balls(1)\n\n        self._reduce_remaining_saves_and_disable_if_zero(balls_to_save)", "SAVE-5"),
+        M("mode end drops pending saved balls", "mpf/devices/ball_save.py", "            self.debug_log(\"Triggering delayed eject because mode ended.\")\n            self.delayed_eject()", "            self.debug_log(\"Triggering delayed eject because mode ended.\")", "SAVE-5"),
+        M("remaining balls requested without counting the lock releases", "mpf/devices/ball_save.py", "            self.source_playfield.add_ball(balls=balls_to_save - balls_added,\n", "            self.source_playfield.add_ball(balls=balls_to_save,\n", "SAVE-5"),
+        M("coil-fired hop of a player-controlled chain waits for ever", OB, "            if (self.ball_device.config['mechanical_eject'] or\n                    self.ball_device.config['player_controlled_eject_event']) and eject_request.player_controlled:\n                timeout = None", "            if eject_request.player_controlled:\n                timeout = None", "TIMEOUT-5"),
+        M("hand-operated device waits for ever for any request", OB, "            if (self.ball_device.config['mechanical_eject'] or\n                    self.ball_device.config['player_controlled_eject_event']) and eject_request.player_controlled:\n                timeout = None", "            if (self.ball_device.config['mechanical_eject'] or\n                    self.ball_device.config['player_controlled_eject_event']):\n                timeout = None", "TIMEOUT-5"),
+        M("confirm wait unbounded", OB, "        timeout = eject_request.eject_timeout\n        self.info_log(\"Wait for confirm with timeout %s\", timeout)", "        timeout = None\n        self.info_log(\"Wait for confirm with timeout %s\", timeout)", "TIMEOUT-5"),
+        M("twin: timeout condition with operands swapped", OB, "            if (self.ball_device.config['mechanical_eject'] or\n                    self.ball_device.config['player_controlled_eject_event']) and eject_request.player_controlled:\n                timeout = None", "            if eject_request.player_controlled and (self.ball_device.config['player_controlled_eject_event'] or\n                    self.ball_device.config['mechanical_eject']):\n                timeout = None", None),
     ]
 
 
